@@ -1,2 +1,91 @@
-/- C13 — theorems under construction -/
+/-
+C13 — only declared error types escape, and the CLI reports them.
+
+`PErr` distinguishes `mp` (an MPilotError subclass), `unexpected` (UnexpectedError, itself an MPilotError), `syntax`
+(SyntaxError) and `raw` (any other exception type).  The theorems say where `raw` can and cannot come from in the model.
+A theorem can only range over exception sources the model contains; discovering a new source in the code is the job of the
+correspondence (any outcome class at the API boundary that the model does not predict is a disagreement).
+-/
+import MPilot.Props.C20
 import MPilot.Model.Program
+
+namespace MPilot.C13
+open MPilot
+
+variable {Val : Type}
+
+def PErr.isRaw : PErr → Bool
+  | .raw _ => true
+  | _ => false
+
+/-- everything raised inside `Command.run` leaves it as an MPilotError: bare exceptions are wrapped -/
+theorem wrapRun_not_raw (line : Option Nat) (e : PErr) : PErr.isRaw (wrapRun line e) = false := by
+  cases e <;> rfl
+
+/-- **`Command.run()` never lets a bare exception escape**: for a command of the program, whatever happens in parameter
+validation, in the bodies of the commands it reads, or in its own body, the error that leaves is an MPilotError -/
+theorem runCmd_not_raw (sem : Sem Val) (p : Program) (fuel : Nat) (st st' : St Val) (n : String) (e : PErr)
+    (hn : (p.find? n).isSome = true) (h : runCmd sem p fuel st n = (st', some e)) : PErr.isRaw e = false := by
+  cases fuel with
+  | zero => unfold runCmd at h; injection h with _ h2; injection h2 with h2; subst h2; rfl
+  | succ fuel =>
+    unfold runCmd at h
+    split at h
+    · cases h
+    · cases hf : p.find? n with
+      | none => rw [hf] at hn; cases hn
+      | some c =>
+        rw [hf] at h
+        simp only at h
+        repeat' (first | split at h | (dsimp only at h))
+        all_goals first
+          | (injection h with _ h2; injection h2 with h2; subst h2; exact wrapRun_not_raw _ _)
+          | (injection h with _ h2; cases h2)
+
+/-- load-time rejections are MPilotErrors -/
+theorem fromNodes_not_raw (lib : String → Option CmdDecl) : ∀ (nodes : List Node) (p : Program) (e : PErr),
+    fromNodes lib p nodes = .error e → PErr.isRaw e = false := by
+  intro nodes
+  induction nodes with
+  | nil => intro p e h; cases h
+  | cons n rest ih =>
+    intro p e h
+    unfold fromNodes at h
+    split at h
+    · injection h with h; subst h; rfl
+    · split at h
+      · rename_i e' hadd
+        injection h with h; subst h
+        unfold addCommand at hadd
+        repeat' (first | split at hadd | (dsimp only at hadd))
+        all_goals first | (injection hadd with hadd; subst hadd; rfl) | (cases hadd)
+      · exact ih _ e h
+
+/-- the pre-pass raises only parameter errors, each an MPilotError — provided cleaning stays inside the model's domain
+(no `OutsideModel` marker: text forms of floats/containers, inf/nan) -/
+theorem prepassCmd_not_raw (ctx : Ctx) (c : PCmd) : ∀ (args : List Arg) (e : PErr),
+    (∀ a ∈ args, ∀ i, c.decl.input? a.name = some i → clean ctx i.spec a.value ≠ .error "OutsideModel") →
+    prepassCmd ctx c args = .error e → PErr.isRaw e = false := by
+  intro args
+  induction args with
+  | nil => intro e _ h; cases h
+  | cons a rest ih =>
+    intro e hdom h
+    unfold prepassCmd at h
+    split at h
+    · exact ih e (fun b hb => hdom b (List.mem_cons_of_mem _ hb)) h
+    · rename_i i hi
+      split at h
+      · rename_i ce hce
+        injection h with h; subst h
+        unfold cleanErrToPErr
+        have : ce ≠ "OutsideModel" := fun heq => hdom a (List.mem_cons_self ..) i hi (heq ▸ hce)
+        simp [this, PErr.isRaw]
+      · split at h
+        · rename_i e' he'
+          injection h with h; subst h
+          exact ih e' (fun b hb => hdom b (List.mem_cons_of_mem _ hb)) he'
+        · repeat' (first | split at h | (dsimp only at h))
+          all_goals cases h
+
+end MPilot.C13
